@@ -1,6 +1,6 @@
 (** Entry.v — one entry point per model function for the correspondence check:
     the harness sends  ["op", arg]  as one line of ASCII JSON, the model answers one line. *)
-From InToto.Model Require Import Base Json Rule Glob Rules Utf8 Match DirDigest.
+From InToto.Model Require Import Base Json Rule Glob Rules Utf8 Match DirDigest Canon EntryVerify.
 
 Definition s_ok : str := [111;107]%N.
 Definition jok (j : json) : json := JDict [(s_ok, j)].
@@ -30,7 +30,7 @@ Definition amap_of_json (j : option json) : amap :=
 
 (** harness-side rendering of a Link object (only the artifact maps matter for rules) *)
 Definition simple_link (name : str) (j : json) : link :=
-  mkLink name (amap_of_json (jget s_materials j)) (amap_of_json (jget s_products j)) (JDict []) (JList []) (JDict []).
+  mkLink (JStr name) (amap_of_json (jget s_materials j)) (amap_of_json (jget s_products j)) (JDict []) (JList []) (JDict []).
 
 Definition links_of_json (j : option json) : links :=
   match j with
@@ -106,11 +106,18 @@ Definition op_match_products : str := [109;97;116;99;104;95;112;114;111;100;117;
 Definition op_dir_text : str := [100;105;114;95;116;101;120;116]%N.
 Definition op_ostree : str := [111;115;116;114;101;101]%N.
 
+Definition op_verify : str := [118;101;114;105;102;121]%N.
+Definition op_canon : str := [99;97;110;111;110]%N.
+(** canonical bytes of a JSON value, as a string of bytes *)
+Definition canon_op (arg : json) : json := jres (fun b => JStr b) (signable_bytes arg).
+
 Definition op_rules_trace : str := [114;117;108;101;115;95;116;114;97;99;101]%N.
 Definition op_fnmatch : str := [102;110;109;97;116;99;104]%N.
 
 Definition run_op (op : str) (arg : json) : json :=
-  if eqs op op_match_products then match_products_op arg
+  if eqs op op_verify then verify_op arg
+  else if eqs op op_canon then canon_op arg
+  else if eqs op op_match_products then match_products_op arg
   else if eqs op op_dir_text then dir_text_op arg
   else if eqs op op_ostree then ostree_op arg
   else if eqs op op_rules_trace then rules_trace arg
